@@ -1522,3 +1522,86 @@ register(Obligation(name="C01.band_energy.slope_eq_2Re_grad_occ_D.ionic_hamilton
                     run=BoundedNative(nat_grad_occ_ionic_coarse, 1, tol=2e-6, what="slope of the band energy vs 2 Re<get_grad_occ, D> with the ionic Hamiltonian alone, coarse even sampling, five external potentials"),
                     budget={"quick": 300, "thorough": 600},
                     doc="BOUNDED: band-energy derivative relation with the ionic part of H on a coarse even sampling with atoms off the grid (a complex local potential breaks it)"))
+
+
+# ------------------------------------------------------------------------------------------------
+# C11 / C05: fields built by H_precompute for slightly changed orbitals; H column by column for many columns
+# ------------------------------------------------------------------------------------------------
+
+
+def nat_precompute_small_change(rng):
+    """An SCF object that holds the fields of its converged orbitals; H_precompute for orbitals that differ from them by a relative 1e-8 ... 1e-3: the
+    Hartree field it returns is the field of THAT density (to round-off, not to the size of the change) and the difference to the stored field is the
+    field of the density difference (linearity)."""
+    import eminus
+    from eminus import SCF, Atoms
+    from eminus.dft import H_precompute, get_n_total, get_phi, orth
+
+    eminus.config.backend = "numpy"
+    eminus.config.verbose = "critical"
+    at = Atoms("He", [[0.1, 0.2, 0.3]], ecut=4, a=[[8.0, 0.3, 0.0], [0.0, 9.0, 0.2], [0.1, 0.0, 10.0]])
+    scf = SCF(at, xc="lda,vwn", opt={"pccg": 25}, etol=1e-10, verbose="critical")
+    scf.run()
+    at = scf.atoms
+    W0 = [np.asarray(w).copy() for w in scf.W]
+    phi0 = np.asarray(get_phi(at, get_n_total(at, orth(at, W0))))
+    worst = 0.0
+    for eps in (1e-8, 1e-6, 1e-4, 1e-3):
+        W1 = [w + eps * np.linalg.norm(w) / np.sqrt(w.size) * rnd(rng, *w.shape) for w in W0]
+        phi = np.asarray(H_precompute(scf, W1)[1])
+        n1 = get_n_total(at, orth(at, W1))
+        want = np.asarray(get_phi(at, n1))
+        worst = max(worst, float(np.abs(phi - want).max() / np.abs(want).max()))
+        dphi = np.asarray(get_phi(at, np.asarray(n1) - np.asarray(get_n_total(at, orth(at, W0)))))
+        worst = max(worst, float(np.abs((phi - phi0) - dphi).max() / np.abs(want).max()))
+    return worst
+
+
+register(Obligation(name="C11.H_precompute.field_of_the_given_orbitals_small_changes", prop="C11", engine="B", bounded=True,
+                    functions=["eminus.dft:H_precompute", "eminus.dft:get_phi"],
+                    run=BoundedNative(nat_precompute_small_change, 1, tol=1e-13, what="Hartree field from H_precompute for orbitals 1e-8 .. 1e-3 away from the ones whose fields the SCF object stores"),
+                    budget={"quick": 300, "thorough": 600},
+                    doc="BOUNDED: the Hartree field that enters H is the exact field of the density of the GIVEN orbitals also when they nearly coincide with stored ones"))
+
+
+def nat_H_many_columns(rng):
+    """H applied to a block of n orbitals (n = 1 ... 40, not multiples of typical block sizes) equals H applied to every orbital alone, column by column: LDA
+    with GTH projectors and (with PySCF) a meta-GGA, two spin channels, two k-points."""
+    import eminus
+    from eminus import SCF, Atoms
+    from eminus.dft import H as Hn, H_precompute
+
+    eminus.config.backend = "numpy"
+    eminus.config.verbose = "critical"
+    xcs = ["lda,vwn"]
+    try:
+        import pyscf  # noqa: F401
+
+        xcs.append(":MGGA_X_TPSS,:MGGA_C_TPSS")
+    except ImportError:
+        pass
+    worst = 0.0
+    for xc in xcs:
+        at = Atoms(["Si", "H"], [[0.5, 0.6, 0.4], [2.9, 3.0, 3.3]], ecut=3, a=[[6.0, 0.3, 0.1], [0.2, 6.5, 0.4], [0.5, 0.1, 7.0]], unrestricted=True)
+        at.set_k([[0.0, 0.0, 0.0], [0.2, 0.1, 0.05]], [0.4, 0.6])
+        scf = SCF(at, xc=xc, opt={"sd": 1}, verbose="critical")
+        scf.run()
+        at = scf.atoms
+        pre = dict(zip(("dn_spin", "phi", "vxc", "vsigma", "vtau"), H_precompute(scf, scf.W)))
+        for n in (1, 7, 9, 12, 17, 20, 33, 40):
+            W = [rnd(rng, 2, len(at.Gk2c[ik]), n) for ik in range(at.kpts.Nk)]
+            for ik in range(at.kpts.Nk):
+                for sp in range(2):
+                    full = np.asarray(Hn(scf, ik, sp, W, **pre))
+                    for j in sorted({0, n // 2, n - 1}):
+                        Wj = [w[:, :, j:j + 1] for w in W]
+                        one = np.asarray(Hn(scf, ik, sp, Wj, **pre))
+                        worst = max(worst, float(np.abs(full[:, j:j + 1] - one).max() / max(1e-30, np.abs(one).max())))
+    return worst
+
+
+register(Obligation(name="C05.H.column_by_column_for_many_orbitals", prop="C05", engine="B", bounded=True,
+                    functions=["eminus.dft:H", "eminus.gga:calc_Vtau", "eminus.gga:gradient_correction", "eminus.gth:calc_Vnonloc"],
+                    run=BoundedNative(nat_H_many_columns, 1, tol=1e-10, what="H of a block of 1 ... 40 orbitals vs H of every orbital alone (LDA + GTH, TPSS)"),
+                    budget={"quick": 300, "thorough": 600},
+                    doc="BOUNDED: H acts column by column (additivity over the orbitals of a block) for blocks of up to 40 orbitals, every term of H"))
